@@ -120,19 +120,48 @@ def _migrate_csv_to_rules(csv_file: str, config_dir: str, backup: bool = True) -
         csv_rules = load_merchant_rules(csv_file)
         content = csv_to_merchants_content(csv_rules)
 
-        # Write new file (never over an existing one - it may hold hand-written rules)
+        # The steps are ordered so that an interruption (or an I/O error) after any of them
+        # leaves a budget that still classifies with the user's rules:
+        #   1. write merchants.rules (via a temporary file, so it is never half-written)
+        #   2. point settings.yaml at it (replaced atomically, never half-written)
+        #   3. only then retire the CSV to a backup
+        # Until step 2 the CSV is still what load_config() uses; from step 2 on the .rules file is.
+
+        # 1. Write new file (never over an existing one - it may hold hand-written rules)
         new_file = os.path.join(config_dir, 'merchants.rules')
         if os.path.exists(new_file):
-            print(f"  {C.RED}✗{C.RESET} Migration skipped: config/merchants.rules already exists")
-            print(f"      Add 'merchants_file: config/merchants.rules' to settings.yaml to use it,")
-            print(f"      or move it away and run the migration again.")
-            return False
-        with open(new_file, 'w', encoding='utf-8') as f:
-            f.write(content)
-        print(f"  {C.GREEN}✓{C.RESET} Created: config/merchants.rules")
-        print(f"      Converted {len(csv_rules)} merchant rules to new format")
+            with open(new_file, 'r', encoding='utf-8') as f:
+                existing = f.read()
+            if existing != content:
+                print(f"  {C.RED}✗{C.RESET} Migration skipped: config/merchants.rules already exists")
+                print(f"      Add 'merchants_file: config/merchants.rules' to settings.yaml to use it,")
+                print(f"      or move it away and run the migration again.")
+                return False
+            # Identical file left by an interrupted migration - carry on from here
+        else:
+            tmp_file = new_file + '.tmp'
+            with open(tmp_file, 'w', encoding='utf-8') as f:
+                f.write(content)
+            os.replace(tmp_file, new_file)
+            print(f"  {C.GREEN}✓{C.RESET} Created: config/merchants.rules")
+            print(f"      Converted {len(csv_rules)} merchant rules to new format")
 
-        # Backup old file
+        # 2. Update settings.yaml to reference new file
+        settings_path = os.path.join(config_dir, 'settings.yaml')
+        if os.path.exists(settings_path):
+            with open(settings_path, 'r', encoding='utf-8', newline='') as f:
+                settings_content = f.read()
+            if 'merchants_file:' not in settings_content:
+                tmp_settings = settings_path + '.tmp'
+                with open(tmp_settings, 'w', encoding='utf-8', newline='') as f:
+                    f.write(settings_content)
+                    f.write('\n# Merchant rules file (migrated from CSV)\n')
+                    f.write('merchants_file: config/merchants.rules\n')
+                os.replace(tmp_settings, settings_path)
+                print(f"  {C.GREEN}✓{C.RESET} Updated: config/settings.yaml")
+                print(f"      Added merchants_file: config/merchants.rules")
+
+        # 3. Backup old file
         if backup and os.path.exists(csv_file):
             # Do not overwrite an earlier backup
             backup_file = csv_file + '.bak'
@@ -142,18 +171,6 @@ def _migrate_csv_to_rules(csv_file: str, config_dir: str, backup: bool = True) -
                 n += 1
             shutil.move(csv_file, backup_file)
             print(f"  {C.GREEN}✓{C.RESET} Backed up: merchant_categories.csv → {os.path.basename(backup_file)}")
-
-        # Update settings.yaml to reference new file
-        settings_path = os.path.join(config_dir, 'settings.yaml')
-        if os.path.exists(settings_path):
-            with open(settings_path, 'r', encoding='utf-8') as f:
-                content = f.read()
-            if 'merchants_file:' not in content:
-                with open(settings_path, 'a', encoding='utf-8') as f:
-                    f.write('\n# Merchant rules file (migrated from CSV)\n')
-                    f.write('merchants_file: config/merchants.rules\n')
-                print(f"  {C.GREEN}✓{C.RESET} Updated: config/settings.yaml")
-                print(f"      Added merchants_file: config/merchants.rules")
 
         return True
     except Exception as e:
